@@ -13,7 +13,7 @@ from ..run import hyp_search, mix
 
 RULE = ('(a) unchecked parents of ANY of the 441 classes with Hypothesis-drawn histories (0-12 ops quick, 0-30 '
         'thorough) whose children are drawn from all 441 classes: add, forward add, remove, replace (any name), '
-        'xml_* assignment of schema children, to_string, deepcopy (the copy is unchecked and serialises alike): no call may raise, both child views equal the insertion '
+        'xml_* assignment of schema children, to_string, deepcopy (the copy is unchecked and serialises alike): no call may raise; a checked element refuses replace_child by a differently named child whether that child is checked or not; both child views equal the insertion '
         'order model, to_string lists the children in insertion order; (b) byte identity: for Hypothesis-drawn and '
         'enumerated (length<=3) schema-valid words that the checked twin accepts and keeps in order, the unchecked '
         'twin\'s to_string is byte-identical; (c) mixed trees: a checked element nested under 1-3 unchecked ancestors '
@@ -240,6 +240,32 @@ def nothing_else(el):
     return None, n
 
 
+def checked_replace(el):
+    """a CHECKED element validates what replace_child gives it whatever the new child's own flag is: an unchecked
+    child of another name is refused like a checked one"""
+    s = schema()
+    t = s.element_type[el]
+    al = s.alphabet(t)
+    for a in al[:4]:
+        for b in [x for x in al if x != a][:4]:
+            verdicts = []
+            for child_checked in (True, False):
+                r = call(fresh, el, True)
+                if not r.ok:
+                    return None
+                k = stub(a)
+                if not call(r.value.add_child, k).ok:
+                    break
+                rn = call(fresh, b, child_checked)
+                if not rn.ok:
+                    break
+                verdicts.append(call(r.value.replace_child, k, rn.value).verdict()[0])
+            if len(verdicts) == 2 and verdicts[0] != verdicts[1]:
+                return F('setting-not-per-element', t, {'mode': 'checked-replace', 'element': el, 'old': a, 'new': b},
+                         {'new child checked': verdicts[0], 'new child unchecked': verdicts[1]})
+    return None
+
+
 def shortcut_child(el, child):
     """a child created by the xml_x = <plain value> shortcut under an UNCHECKED parent is an element of its own: it
     checks itself exactly like the child the same shortcut creates under a checked parent"""
@@ -389,6 +415,8 @@ def replay_case(rec):
         return byte_identity(inp['element'], tuple(inp['word']))[0]
     if m == 'ic-through-unchecked':
         return ic_passes_through(inp['element'], inp['names'])[0]
+    if m == 'checked-replace':
+        return checked_replace(inp['element'])
     if m == 'shortcut-child':
         return shortcut_child(inp['element'], inp['child'])[0]
     if m == 'nothing-else':
@@ -433,6 +461,10 @@ def run_shard(ctx, shard, acc):
                     acc.case({'mode': 'ic-through-unchecked', 'element': els[0], 'names': list(names)}, True, 3)
                 if f:
                     acc.fail(f, raise_=False)
+            f = checked_replace(els[0])
+            acc.count('checked-replace')
+            if f:
+                acc.fail(f, raise_=False)
             for a in s.alphabet(t):
                 f, status = shortcut_child(els[0], a)
                 acc.count('shortcut-child-' + status)
